@@ -49,6 +49,8 @@ WITNESS_DOC = {"openapi": "3.0.3", "info": {"title": "W", "version": "1"}, "path
     "/text": {"get": {"operationId": "getText", "responses": {"200": {"description": "t", "content": {"text/plain": {"schema": {"type": "string"}}}}}}},
     "/date": {"get": {"operationId": "getDate", "responses": {"200": {"description": "d", "content": {"application/json": {"schema": {"type": "string", "format": "date"}}}}}}},
     "/nd": {"get": {"operationId": "getNd", "responses": {"200": {"description": "n", "content": {"application/x-ndjson": {"schema": {"type": "object", "properties": {"a": {"type": "integer"}}}}}}}}},
+    "/ws": {"get": {"operationId": "getWs", "responses": {"200": {"description": "w", "content": {
+        "application/vnd.acme.v2+json": {"schema": {"$ref": "#/components/schemas/V1"}}, "application/json": {"schema": {"type": "string"}}}}}}},
     "/node": {"get": {"operationId": "getNode", "responses": {"200": {"description": "n", "content": {"application/json": {"schema": {"$ref": "#/components/schemas/Node"}}}}}}},
     "/u": {"get": {"operationId": "getU", "responses": {"200": {"description": "u", "content": {"application/json": {"schema": {"$ref": "#/components/schemas/Holder"}}}}}}}},
     "components": {"schemas": {
@@ -123,6 +125,12 @@ def build_cases(ctx, stream: str, n: int) -> list[dict]:
                         inst = {"item": {"a": "x", "b": 7}}
                         rp["reply"]["body_b64"] = _b64.b64encode(json.dumps(inst).encode()).decode()
                         rp["expect"]["json"] = inst
+                    if o is None and nplan is None and op["operationId"] == "getWs":
+                        # former witness of F69: the JSON string arm of a Content-Type dispatch
+                        import base64 as _b64
+                        inst = 'q"uote' if rep else ""
+                        rp = {"reply": {"status": 200, "headers": {"content-type": "application/json"}, "body_b64": _b64.b64encode(json.dumps(inst).encode()).decode()},
+                              "expect": {"kind": "json", "json": inst, "schema": {"type": "string"}}, "media_type": "application/json", "code_key": c}
                     if o is None and op["operationId"] == "getNode":
                         import base64 as _b64
                         inst = {"v": 1, "children": [{"v": 2, "children": []}]}
